@@ -110,6 +110,7 @@ class Analyzer:
         self.partition = {}
         self.symdeps = {}
         self.fp80src = {}
+        self.symdef = {}
         self.mod = mod
         self.fn = IR.materialize(fn, mod)
         self.join_threshold = join_threshold
@@ -478,7 +479,8 @@ class Analyzer:
         if jhi - jlo <= 1 and (k >= v.w - 1):
             raise Split([[("lin", v.lin, None, jhi * P - 1)], [("lin", v.lin, jhi * P, None)]], "lowbits")
         s = self.pmint(st, T("lowbits", v.lin.key(), k), 0, P - 1, (v.lin,))
-        # the symbol is a multiple of 2^tz
+        # relational fact: v - lowbits = 2^k * floor(v / 2^k), and the quotient lies in [jlo, jhi]
+        st.constrain(v.lin.sub(Lin.sym(s)), jlo * P, jhi * P)
         a, z = st.bounds[s]
         return Lin.sym(s), a, z
 
@@ -539,6 +541,12 @@ class Analyzer:
         else:
             la, lb = a.lin, b.lin
         d = la.sub(lb)
+        extra = self.quotient_rule(st, p, la, lb)
+        if extra:
+            base = {"slt": [("lin", d, None, -1)], "sle": [("lin", d, None, 0)], "sgt": [("lin", d, 1, None)],
+                    "sge": [("lin", d, 0, None)]}.get(p)
+            if base is not None:
+                return [base + extra]
         if p == "eq":
             return [[("lin", d, 0, 0)]]
         if p == "ne":
@@ -552,6 +560,48 @@ class Analyzer:
         if p == "sge":
             return [[("lin", d, 0, None)]]
         raise Broken("icmp pred " + p)
+
+    def quotient_rule(self, st, p, la, lb):
+        """x <= floor(C / y) with y > 0, x >= 0  <=>  x * y <= C   (C a constant).
+        When one side of a comparison is the quotient symbol of such a division, the equivalent bound on the
+        product of the other side with the divisor is added."""
+        def qdef(l):
+            sg = l.single()
+            if sg is None or sg[1] != 1 or l.cn != 0:
+                return None
+            d = self.symdef.get(sg[0])
+            if d is None or d[0] != "div" or not d[1].is_const():
+                return None
+            C = d[1].c
+            if isinstance(C, Fraction) or C < 0:
+                return None
+            blo, bhi = st.rng_lin_int(d[2])
+            if blo <= 0:
+                return None
+            return C, d[2]
+        out = []
+        qa, qb = qdef(la), qdef(lb)
+        if qb is not None and qa is None:
+            C, B = qb
+            x = la
+            rel = p
+        elif qa is not None and qb is None:
+            C, B = qa
+            x = lb
+            rel = {"slt": "sgt", "sle": "sge", "sgt": "slt", "sge": "sle"}.get(p)
+        else:
+            return out
+        xlo, xhi = st.rng_lin_int(x)
+        if xlo < 0 or rel is None:
+            return out
+        # rel is the relation  x rel q
+        if rel == "sle":          # x <= q  <=> x*B <= C
+            out.append(("prod", x, B, None, C))
+        elif rel == "sgt":        # x > q   <=> x*B > C
+            out.append(("prod", x, B, C + 1, None))
+        elif rel == "slt":        # x < q   =>  x*B <= C - B <= C
+            out.append(("prod", x, B, None, C))
+        return out
 
     def refine_fcmp(self, st, p, a, b, truth):
         # only refine a float symbol against a constant
@@ -619,6 +669,16 @@ class Analyzer:
                 st.isc[r[1]] = r[2]
             elif r[0] == "src":
                 st.src = r[1]
+            elif r[0] == "prod":
+                _, x, B, lo, hi = r
+                xl, xh = st.rng_lin_int(x)
+                bl, bh = st.rng_lin_int(B)
+                if xl == xh or bl == bh:
+                    l = B.scale(xl) if xl == xh else x.scale(bl)
+                    st.constrain(l, lo, hi)
+                else:
+                    s_, sg = self.prod_sym(st, x, B)
+                    st.constrain(Lin.sym(s_, sg), lo, hi)
             elif r[0] == "parted":
                 st.parted = st.parted | {r[1]}
             else:
@@ -1210,6 +1270,33 @@ class Analyzer:
                 raise Split(cases, "nsw")
             self.alarm(st, i, "nsw-overflow", "result of nsw %s can overflow" % i.op)
 
+    @staticmethod
+    def canon(lin):
+        """(sign, lin') with lin = sign * lin' and the leading coefficient of lin' positive"""
+        if not lin.t:
+            return 1, lin
+        s0 = min(lin.t, key=str)
+        if lin.t[s0] < 0:
+            return -1, lin.neg()
+        return 1, lin
+
+    def prod_sym(self, st, la, lb):
+        """symbol for the product of two (canonical) forms and the sign to apply; bounds from the boxes"""
+        sa, ca = self.canon(la)
+        sb, cb = self.canon(lb)
+        alo, ahi = st.rng_lin_int(ca)
+        blo, bhi = st.rng_lin_int(cb)
+        ka, kb = ca.key(), cb.key()
+        cs = [alo * blo, alo * bhi, ahi * blo, ahi * bhi]
+        lo, hi = min(cs), max(cs)
+        if ka == kb:
+            lo = 0 if alo <= 0 <= ahi else min(alo * alo, ahi * ahi)
+        k1, k2 = sorted([ka, kb], key=repr)
+        t = T("mul", k1, k2)
+        s = self.pmint(st, t, lo, hi, (ca, cb))
+        st.prod[s] = (k1, k2)
+        return s, sa * sb
+
     def product(self, st, a, b, w):
         """exact product as (lin, lo, hi, tz)"""
         alo, ahi = st.rng(a)
@@ -1219,16 +1306,8 @@ class Analyzer:
         elif blo == bhi:
             l = a.lin.scale(blo)
         else:
-            ka, kb = a.lin.key(), b.lin.key()
-            cs = [alo * blo, alo * bhi, ahi * blo, ahi * bhi]
-            lo, hi = min(cs), max(cs)
-            if ka == kb:
-                lo = 0 if alo <= 0 <= ahi else min(alo * alo, ahi * ahi)
-            k1, k2 = sorted([ka, kb], key=repr)
-            t = T("mul", k1, k2)
-            s = self.pmint(st, t, lo, hi, (a.lin, b.lin))
-            st.prod[s] = (k1, k2)
-            l = Lin.sym(s)
+            s, sg = self.prod_sym(st, a.lin, b.lin)
+            l = Lin.sym(s, sg)
         lo, hi = st.rng_lin_int(l)
         return l, lo, hi, min(64, a.tz + b.tz)
 
@@ -1487,6 +1566,7 @@ class Analyzer:
         qlo, qhi = min(cs), max(cs)
         t = T("sdiv" if signed else "udiv", w, al.key(), bl.key())
         qs = self.pmint(st, t, qlo, qhi, (al, bl))
+        self.symdef[t] = ("div", al, bl)
         q = Lin.sym(qs)
         # remainder: |r| < |b|, sign of a
         mb = max(abs(blo), abs(bhi)) - 1
